@@ -28,14 +28,19 @@ oracles and the clauses of the property they cover
                        conditions named by 'cid', is NaN exactly when both positions are copies of one original condition (this
                        includes groups drawn three or more times: all copy pairs, not only neighbours) and nowhere else;
                        resampling a model prediction (RDMs of a ModelFixed / a second RDMs object with the same descriptor)
-                       with the RETURNED indices gives, position by position of the vector form, the prediction for the same
-                       two original conditions as the sample entry ("conditions in the same order as the sample").
+                       with the RETURNED indices gives the same sequence of original conditions ('cid') as the sample and,
+                       position by position of the vector form, the prediction for the same two original conditions as the
+                       sample entry, NaN where the sample is NaN ("conditions in the same order as the sample").
   C09/joint-draws      the same for bootstrap_sample (RDMs and conditions drawn in one call), all joint outcomes.
   C09/subsample        RDMs.subsample called directly with every value vector (list / tuple / array / scalar): same clauses.
   C09/subsample-pattern RDMs.subsample_pattern called directly with every value vector: same clauses incl. NaN placement.
   C09/frequency-smoke  STATISTICAL SMOKE TEST, NOT A DECISION: with the real numpy generator (fixed seed, state restored
                        afterwards) and unbalanced group sizes each GROUP (not each RDM / condition) is selected N times on
                        average in N draws; generous threshold of 6 standard deviations of the binomial count.
+
+A case is one input (sizes, explicit label lists, container); the oracle enumerates the outcomes / value vectors itself and
+reports how many fail and the first failing one (enumeration of a case stops after MAX_FAILS failures).  The optional case key
+'script' (list of scripted draws) or 'value' (one value vector) restricts a replay to that single outcome.
 
 What is deliberately not demanded: the ORDER of RDMs / conditions inside the sample (the statement fixes only the order
 agreement between sample and resampled prediction, which is checked), the container type of the descriptors of the sample.
@@ -618,9 +623,9 @@ def tier_c(run, thorough):
     both = [KINDS[0], KINDS[3]]
     if thorough:
         shapes = [(r, c, both if (r, c) != (4, 4) else KINDS[0:1]) for r in range(1, 5) for c in range(2, 5)]
-        shapes += [(r, 5, KINDS[0:1]) for r in (1, 2)]
+        shapes += [(r, 5, KINDS[0:1]) for r in (1, 2, 3)]
         dom = ('n_rdm 1..4 x n_cond 2..4 (int labels / list; except for 4 x 4 also str labels / array), '
-               'n_rdm 1..2 x n_cond 5 (int labels / list)')
+               'n_rdm 1..3 x n_cond 5 (int labels / list)')
     else:
         shapes = [(r, c, both) for r in range(1, 4) for c in range(2, 4)] + [(r, 4, KINDS[0:1]) for r in (1, 2, 3)]
         dom = 'n_rdm 1..3 x n_cond 2..3 (int labels / list and str labels / array), n_rdm 1..3 x n_cond 4 (int labels / list)'
